@@ -35,6 +35,9 @@ type Step struct {
 	SeqVal  uint32 `json:"seqval"`
 	AckMode int    `json:"ackmode"` // 0: iss+1, 1: iss, 2: iss+2, 3: iss+1+2^31, 4: iss+1+AckVal, 5: absolute AckVal
 	AckVal  uint32 `json:"ackval"`
+	// StaleAck: the segment does not carry the ACK flag but its acknowledgement field holds
+	// AckVal anyway (the field is meaningless without the flag, RFC 793 3.1, and must be ignored)
+	StaleAck bool `json:"staleack,omitempty"`
 	Len     int    `json:"len"`
 	Opts    []byte `json:"opts"`  // raw SYN options (nil = MSS 1460)
 	TSFix   bool   `json:"tsfix"` // on non-SYN segments: carry a timestamp option if the SYN-ACK negotiated it
@@ -145,6 +148,12 @@ func runPassive(sc Script) *evid.Failure {
 				seg.Ack = t.iss + 1 + st.AckVal
 			default:
 				seg.Ack = st.AckVal
+			}
+		} else if st.StaleAck {
+			evid.Label("step:ack-field-set-without-ACK-flag")
+			seg.Ack = st.AckVal
+			if st.AckMode == 0 {
+				seg.Ack = t.iss + 1 // the value that would be right if the flag were set
 			}
 		}
 		if st.Len > 0 {
@@ -572,6 +581,11 @@ func genPassive(rt *rapid.T) Script {
 			st.AckMode = rapid.IntRange(0, 5).Draw(rt, "ackmode")
 			st.AckVal = rapid.Uint32().Draw(rt, "ackval")
 			st.Len = rapid.SampledFrom([]int{0, 0, 3}).Draw(rt, "len")
+		}
+		if st.Flags&codec.ACK == 0 && rapid.IntRange(0, 2).Draw(rt, "staleack") == 0 {
+			st.StaleAck = true
+			st.AckMode = rapid.SampledFrom([]int{0, 5, 5}).Draw(rt, "stale_ackmode")
+			st.AckVal = rapid.OneOf(rapid.Uint32Range(1, 5), rapid.Uint32()).Draw(rt, "stale_ackval")
 		}
 		sc.Steps = append(sc.Steps, st)
 	}
